@@ -107,7 +107,26 @@ def r2(R, repo):
     c = cfg_of(f)
     if q == 'Optimizer.update':
       inc = [n for n in c.nodes if isinstance(n.stmt, ast.AugAssign) and astu.src(n.stmt.target) == 'self.step.value' and isinstance(n.stmt.op, ast.Add) and astu.is_const(n.stmt.value, 1)]
+      handed = []
+      if not inc:
+        # the increment may live in a helper that receives the optimizer itself: `<param>.step.value += 1` exactly once there
+        for x in astu.func_calls(f):
+          pos = [i for i, a in enumerate(x.args) if isinstance(a, ast.Name) and a.id == 'self']
+          g_ = f.mod.funcs.get(astu.call_name(x) or '')
+          if pos and g_ is not None and len(astu.params(g_.node)) > pos[0]:
+            pn = astu.params(g_.node)[pos[0]]
+            cg_ = cfg_of(g_)
+            inc_g = [n for n in cg_.nodes if isinstance(n.stmt, ast.AugAssign) and astu.src(n.stmt.target) == pn + '.step.value' and isinstance(n.stmt.op, ast.Add) and astu.is_const(n.stmt.value, 1)]
+            if inc_g and cg_.exactly_once_to_exit(inc_g)[0]:
+              inc += c.nodes_for(x)
+            elif 'step' in astu.src(g_.node):
+              handed.append(x)
+          elif pos:
+            handed.append(x)
       ok, why = c.exactly_once_to_exit(inc) if inc else (False, 'no increment')
+      if handed and not ok:
+        R.unsure(key_of(f, 'self.step.value += 1 exactly once'), f, 'the optimizer is handed to `%s`, which may count the step' % astu.short(handed[0]))
+        continue
       any_step = [n for n in astu.body_walk(f.node) if isinstance(n, (ast.Attribute, ast.Name)) and isinstance(n.ctx, ast.Store) and 'step' in astu.src(n)] or evid.calls_deep(repo, f, lambda y: 'step' in astu.src(y.func))
       R.judge(bool(inc) or not any_step, ok, key_of(f, 'self.step.value += 1 exactly once'), f, 'Optimizer.update must increment step by one exactly once on every path: %s' % why)
     else:
